@@ -85,6 +85,7 @@ type trCtx struct {
 	noHoist int     // >0: inside the right operand of && / ||, where hoisting would change the evaluation order
 	loop   *trLoopCtx
 	pureDepth int // >0: translating a join as a pure term
+	resultTypes []types.Type // result types of the function (of the returned function literal for a curried method)
 	nresults  int // number of results of the function (of the returned function literal for a curried method)
 }
 
@@ -206,6 +207,22 @@ func trLeanStr(s string) string {
 	return b.String()
 }
 
+// exprAs: an expression in a position whose type is known (gives `nil` its type)
+func (c *trCtx) exprAs(e ast.Expr, ty types.Type) string {
+	if c.isNil(e) {
+		switch {
+		case trIsError(ty):
+			return "(none : Option Error)"
+		default:
+			if _, ok := ty.Underlying().(*types.Slice); ok {
+				return "([] : " + c.leanType(ty, e.Pos()) + ")" // nil slice: len 0, append and range as for an empty slice
+			}
+		}
+		trFail(e.Pos(), "nil of type %s is outside the subset", ty)
+	}
+	return c.expr(e)
+}
+
 // expr translates an expression to a single-line Lean term (atomic or parenthesised).
 func (c *trCtx) expr(e ast.Expr) string {
 	// constants fold (except names of constants, which keep their name)
@@ -300,7 +317,14 @@ func (c *trCtx) ident(x *ast.Ident) string {
 		}
 		trFail(x.Pos(), "variable %s is used before the translator saw its declaration", x.Name)
 	case *types.Nil:
-		trFail(x.Pos(), "nil outside a comparison with an error is outside the subset")
+		ty := c.typeOf(x)
+		if trIsError(ty) {
+			return "(none : Option Error)"
+		}
+		if _, ok := ty.Underlying().(*types.Slice); ok {
+			return "([] : " + c.leanType(ty, x.Pos()) + ")" // nil slice: len 0, append and range as for an empty slice; comparison with nil is rejected
+		}
+		trFail(x.Pos(), "nil of type %s is outside the subset", ty)
 	}
 	trFail(x.Pos(), "identifier %s (%T) is outside the subset", x.Name, obj)
 	return ""
@@ -383,7 +407,7 @@ func (c *trCtx) binary(x *ast.BinaryExpr) string {
 	switch x.Op {
 	case token.EQL, token.NEQ:
 		if _, ok := tx.Underlying().(*types.Pointer); ok {
-			if c.leanTypeIsOpaque(tx) == "" {
+			if c.leanTypeIsOpaque(tx) == "" && !trIsInterned(tx) {
 				trFail(x.Pos(), "comparison of pointers (%s) is outside the subset", tx)
 			}
 		}
@@ -604,8 +628,17 @@ func (c *trCtx) call(x *ast.CallExpr) string {
 	if isPrim && prim.args != nil {
 		argExprs = prim.args(c, x)
 	}
-	for _, a := range argExprs {
-		args = append(args, c.expr(a))
+	sigParams := fobj.Type().(*types.Signature).Params()
+	for i, a := range argExprs {
+		if i < sigParams.Len() && !fobj.Type().(*types.Signature).Variadic() {
+			args = append(args, c.exprAs(a, sigParams.At(i).Type()))
+		} else {
+			args = append(args, c.expr(a))
+		}
+	}
+	if pin, ok := trPinned[full]; ok && pin.lean != "" {
+		c.t.checkPinned(fobj, x.Pos())
+		return "(" + pin.lean + " " + strings.Join(args, " ") + ")"
 	}
 	if p, ok := trPrims[full]; ok {
 		app := p.lean + " " + strings.Join(args, " ")
